@@ -987,6 +987,11 @@ func writeAccess(repo, out string) error {
 		return err
 	}
 	b.WriteString(stOps)
+	ish, err := initShapeLean(repo)
+	if err != nil {
+		return err
+	}
+	b.WriteString("\n" + ish)
 	b.WriteString("\nend GoRes.Generated\n")
 	if old, err := os.ReadFile(out); err == nil && string(old) == b.String() {
 		return nil
